@@ -1007,6 +1007,10 @@ class Fxp():
             elif dtype == int or dtype == 'uint' or dtype == 'int' or np.issubdtype(dtype, np.integer):
                 if self.n_frac == 0:
                     val = raw_val
+                    if isinstance(val, (np.ndarray, np.generic)) and val.dtype == np.uint64 and self.n_word < 64 \
+                        and not (dtype == 'uint' or (dtype != int and dtype != 'int' and np.issubdtype(dtype, np.unsignedinteger))):
+                        # unsigned codes of less than 64 bits read as (signed) integers: arithmetic on them must not wrap at zero
+                        val = val.astype(np.int64)
                 else:
                     val = raw_val // self._get_conv_factor()
                     val = np.array(list(map(int, val.flatten()))).reshape(val.shape)
